@@ -437,7 +437,12 @@ func (o *Oracles) scenarioChecks(w *World) {
 		// a run that had already failed with its retries exhausted when the stop request
 		// arrived (the request raced the failure: the pipeline was not yet marked recovering)
 		// legitimately ends degraded with that cause recorded - the first clause of C10
-		exhausted := st == 4 && strings.Contains(errText, "couldn't be recovered") && !c.stopDuringBackoff
+		// ... or whose retry budget was used up at that failure: with max-retries automatic
+		// restarts already made (none at all when max-retries is 0) the engine stores
+		// "recovering" and gives up in the same breath; a stop that lands between those two
+		// status writes finds a run that has already failed for good
+		budgetUsed := w.cfg.Recovery.MaxRetries >= 0 && int64(c.autoRestarts) >= w.cfg.Recovery.MaxRetries
+		exhausted := st == 4 && strings.Contains(errText, "couldn't be recovered") && (!c.stopDuringBackoff || budgetUsed)
 		if c.userStopOK && c.stopClient == "user" && st != 3 && !exhausted {
 			w.violate("C10", "stopped-status-mismatch", fmt.Sprintf("a user stop returned success but the final status is %s", statusName(st)))
 		}
